@@ -238,6 +238,10 @@ fn run_real(op: &RealOp, sols: &[Vec<f64>]) -> VecObs<f64> {
     let d = sols[0].len();
     let problem = realp(d);
     let c: Box<dyn Component<RealP>> = match *op {
+        // rate 1 through the convenience constructors documented as "rate of 1" / "full"
+        RealOp::Normal(r) if r == 1.0 => mu::NormalMutation::new_dev::<RealP>(0.5),
+        RealOp::Uniform(r) if r == 1.0 => mu::UniformMutation::new_bound::<RealP>(0.5),
+        RealOp::PartialRandomSpread(r) if r == 1.0 => mu::PartialRandomSpread::new_full::<RealP>(),
         RealOp::Normal(r) => mu::NormalMutation::new::<RealP>(0.5, r),
         RealOp::Uniform(r) => mu::UniformMutation::new::<RealP>(0.5, r),
         RealOp::PartialRandomSpread(r) => mu::PartialRandomSpread::new::<RealP>(r),
@@ -252,7 +256,8 @@ fn run_bin(op: &BinOp, sols: &[Vec<bool>]) -> VecObs<bool> {
     let problem = BinP { dim: d, instr: Instr::new() };
     let c: Box<dyn Component<BinP>> = match *op {
         BinOp::BitFlip(r) => mu::BitFlipMutation::new::<BinP>(r),
-        BinOp::PartialRandomBitstring(r) => mu::PartialRandomBitstring::new::<BinP>(0.5, r),
+        BinOp::PartialRandomBitstring(r) if r == 1.0 => mu::PartialRandomBitstring::new_uniform_full::<BinP>(),
+        BinOp::PartialRandomBitstring(r) => mu::PartialRandomBitstring::new_uniform::<BinP>(r),
     };
     let pop: Vec<Individual<BinP>> = sols.iter().map(|s| Individual::new(s.clone(), crate::subject::problems::so(1.0))).collect();
     let mut st = state_with::<BinP>(vec![pop]);
@@ -293,19 +298,30 @@ fn check_vec<T: PartialEq + std::fmt::Debug + Clone>(name: &str, rate: f64, sols
 
 /// The mutation rate is state (`MutationRate<T>`), adaptable after initialisation: with the state set to 0
 /// nothing may change whatever rate the component was constructed with. Returns the changed solutions.
-fn run_adapted_rate(which: u8, cfg_rate: f64) -> Result<Vec<String>, String> {
+fn run_adapted_rate(which: u8, cfg_rate: f64, reinit: bool) -> Result<Vec<String>, String> {
     use mahf::components::mutation::MutationRate;
     use mahf::identifier::Global;
     macro_rules! go {
-        ($P:ty, $problem:expr, $T:ty, $c:expr, $sols:expr) => {{
+        ($P:ty, $problem:expr, $T:ty, $mk:expr, $sols:expr) => {{
             let problem = $problem;
             let sols = $sols;
-            let c: Box<dyn Component<$P>> = $c;
+            let mk = $mk;
             let pop: Vec<Individual<$P>> = sols.iter().map(|s| Individual::new(s.clone(), crate::subject::problems::so(1.0))).collect();
             let mut st = state_with::<$P>(vec![pop]);
+            let c: Box<dyn Component<$P>> = if reinit {
+                // an instance with rate 1 was initialised on this state before (an earlier run); the instance
+                // that runs now is constructed with rate 0 and initialised afterwards
+                let before: Box<dyn Component<$P>> = mk(1.0);
+                before.init(&problem, &mut st).map_err(|e| format!("init: {:#}", e))?;
+                mk(0.0)
+            } else {
+                mk(cfg_rate)
+            };
             c.init(&problem, &mut st).map_err(|e| format!("init: {:#}", e))?;
             c.require(&problem, &st.requirements()).map_err(|e| format!("require: {:#}", e))?;
-            st.set_value::<MutationRate<$T>>(0.0);
+            if !reinit {
+                st.set_value::<MutationRate<$T>>(0.0);
+            }
             c.execute(&problem, &mut st).map_err(|e| format!("execute: {:#}", e))?;
             let after: Vec<_> = st.populations().current().iter().map(|i| i.solution().clone()).collect();
             Ok(sols.iter().zip(&after).filter(|(a, b)| format!("{:?}", a) != format!("{:?}", b)).map(|(a, b)| format!("{:?} -> {:?}", a, b)).collect())
@@ -315,19 +331,25 @@ fn run_adapted_rate(which: u8, cfg_rate: f64) -> Result<Vec<String>, String> {
     let bits = vec![vec![true, false, true, true], vec![false, false, true, false]];
     let perms = vec![vec![2usize, 0, 3, 1], vec![0, 1, 2, 3]];
     match which {
-        0 => go!(RealP, realp(3), mu::NormalMutation<Global>, mu::NormalMutation::new::<RealP>(0.5, cfg_rate), reals),
-        1 => go!(RealP, realp(3), mu::UniformMutation<Global>, mu::UniformMutation::new::<RealP>(0.5, cfg_rate), reals),
-        2 => go!(RealP, realp(3), mu::PartialRandomSpread<Global>, mu::PartialRandomSpread::new::<RealP>(cfg_rate), reals),
-        3 => go!(BinP, BinP { dim: 4, instr: Instr::new() }, mu::BitFlipMutation<Global>, mu::BitFlipMutation::new::<BinP>(cfg_rate), bits),
-        4 => go!(BinP, BinP { dim: 4, instr: Instr::new() }, mu::PartialRandomBitstring<Global>, mu::PartialRandomBitstring::new::<BinP>(0.5, cfg_rate), bits),
-        _ => go!(TspP, tsp(4), mu::ScrambleMutation<Global>, mu::ScrambleMutation::new::<TspP>(cfg_rate), perms),
+        0 => go!(RealP, realp(3), mu::NormalMutation<Global>, |r| mu::NormalMutation::new::<RealP>(0.5, r), reals),
+        1 => go!(RealP, realp(3), mu::UniformMutation<Global>, |r| mu::UniformMutation::new::<RealP>(0.5, r), reals),
+        2 => go!(RealP, realp(3), mu::PartialRandomSpread<Global>, |r| mu::PartialRandomSpread::new::<RealP>(r), reals),
+        3 => go!(BinP, BinP { dim: 4, instr: Instr::new() }, mu::BitFlipMutation<Global>, |r| mu::BitFlipMutation::new::<BinP>(r), bits),
+        4 => go!(BinP, BinP { dim: 4, instr: Instr::new() }, mu::PartialRandomBitstring<Global>, |r| mu::PartialRandomBitstring::new::<BinP>(0.5, r), bits),
+        _ => go!(TspP, tsp(4), mu::ScrambleMutation<Global>, |r| mu::ScrambleMutation::new::<TspP>(r), perms),
     }
 }
 const ADAPTED: [&str; 6] = ["NormalMutation", "UniformMutation", "PartialRandomSpread", "BitFlipMutation", "PartialRandomBitstring", "ScrambleMutation"];
 
-fn check_adapted_rate(which: u8, cfg_rate: f64, out: &Outcome<Result<Vec<String>, String>>) -> Option<(String, String)> {
-    let head = format!("C13 op={} adapted-rate", ADAPTED[which as usize]);
-    let ctx = |w: String| format!("{} constructed with rate {}, MutationRate state set to 0 after init: {}", ADAPTED[which as usize], cfg_rate, w);
+fn check_adapted_rate(which: u8, cfg_rate: f64, reinit: bool, out: &Outcome<Result<Vec<String>, String>>) -> Option<(String, String)> {
+    let head = format!("C13 op={} {}", ADAPTED[which as usize], if reinit { "rate-zero-after-earlier-initialisation" } else { "adapted-rate" });
+    let ctx = |w: String| {
+        if reinit {
+            format!("{} constructed with rate 0 and initialised on a state on which an instance with rate 1 had been initialised before: {}", ADAPTED[which as usize], w)
+        } else {
+            format!("{} constructed with rate {}, MutationRate state set to 0 after init: {}", ADAPTED[which as usize], cfg_rate, w)
+        }
+    };
     match out {
         Outcome::Done(Ok(changed)) if changed.is_empty() => None,
         Outcome::Done(Ok(changed)) => Some((format!("{} rate-zero-changed", head), ctx(format!("solutions changed: {:?}", changed)))),
@@ -349,9 +371,13 @@ pub enum XOp {
 fn run_cross_real(op: &XOp, pc: f64, both: bool, sols: &[Vec<f64>]) -> VecObs<f64> {
     let problem = realp(sols[0].len());
     let c: Box<dyn Component<RealP>> = match *op {
-        XOp::NPoint(n) => rc::NPointCrossover::new::<RealP, f64>(n, pc, both),
-        XOp::Uniform => rc::UniformCrossover::new::<RealP, f64>(pc, both),
-        XOp::Arithmetic => rc::ArithmeticCrossover::new::<RealP>(pc, both),
+        // through the constructors named after what they insert
+        XOp::NPoint(n) if both => rc::NPointCrossover::new_insert_both::<RealP, f64>(n, pc),
+        XOp::NPoint(n) => rc::NPointCrossover::new_insert_single::<RealP, f64>(n, pc),
+        XOp::Uniform if both => rc::UniformCrossover::new_insert_both::<RealP, f64>(pc),
+        XOp::Uniform => rc::UniformCrossover::new_insert_single::<RealP, f64>(pc),
+        XOp::Arithmetic if both => rc::ArithmeticCrossover::new_insert_both::<RealP>(pc),
+        XOp::Arithmetic => rc::ArithmeticCrossover::new_insert_single::<RealP>(pc),
         XOp::Cycle => unreachable!(),
     };
     let pop: Vec<Individual<RealP>> = sols.iter().enumerate().map(|(k, s)| Individual::new(s.clone(), crate::subject::problems::so(k as f64 + 1.0))).collect();
@@ -369,7 +395,7 @@ fn foreign_objective<T: PartialEq>(parents: &[Vec<T>], child: &Vec<T>, obj: Opti
 }
 fn run_cross_perm(pc: f64, both: bool, n: usize, sols: &[Vec<usize>]) -> VecObs<usize> {
     let problem = tsp(n);
-    let c: Box<dyn Component<TspP>> = rc::CycleCrossover::new::<TspP, usize>(pc, both);
+    let c: Box<dyn Component<TspP>> = if both { rc::CycleCrossover::new_insert_both::<TspP, usize>(pc) } else { rc::CycleCrossover::new_insert_single::<TspP, usize>(pc) };
     let pop: Vec<Individual<TspP>> = sols.iter().enumerate().map(|(k, s)| Individual::new(s.clone(), crate::subject::problems::so(k as f64 + 1.0))).collect();
     let mut st = state_with::<TspP>(vec![pop]);
     let r = run_component(c.as_ref(), &problem, &mut st).map_err(|e| format!("{:#}", e));
@@ -592,7 +618,20 @@ fn check_case(c: &Case, out: &Outcome<CaseObs>) -> Option<(String, String)> {
                 BinOp::BitFlip(r) => ("BitFlipMutation", *r),
                 BinOp::PartialRandomBitstring(r) => ("PartialRandomBitstring", *r),
             };
-            check_vec(name, rate, s, &o, &|_| true)
+            let r = check_vec(name, rate, s, &o, &|_| true);
+            // a bit-flip rate of 1 flips every bit
+            if r.is_none() && rate == 1.0 && matches!(op, BinOp::BitFlip(_)) {
+                if let Outcome::Done((Ok(()), pops)) = &o {
+                    if let Some(p0) = pops.first() {
+                        for (i, (sol, _)) in p0.iter().enumerate() {
+                            if s.get(i).map(|orig| orig.iter().zip(sol).any(|(a, b)| a == b)).unwrap_or(false) {
+                                return Some((format!("C13 op={} rate=1 rate-one-left-a-bit", name), format!("{} with rate 1 on {:?}: solution {} became {:?}, every bit must flip", name, s, i, sol)));
+                            }
+                        }
+                    }
+                }
+            }
+            r
         }
         Case::CrossReal(op, pc, b, s) => {
             let o = remap(out, |a| if let CaseObs::Real(x) = a { Some(x.clone()) } else { None })?;
@@ -802,7 +841,7 @@ fn check_ax(n: usize, alphas: &[f64], wide: bool) -> Vec<(String, String)> {
 
 pub fn run(rep: &mut Report) {
     let thorough = rep.tier == Tier::Thorough;
-    rep.alpha("mutation rate adapted through the MutationRate state after initialisation (6 operators x constructed rates {1, 1/2, 0}, state set to 0): nothing changes");
+    rep.alpha("mutation rate adapted through the MutationRate state after initialisation (6 operators x constructed rates {1, 1/2, 0}, state set to 0; constructed with rate 0 and initialised after an instance with rate 1 was initialised on the same state): nothing changes");
     rep.alpha("helpers: circular_swap/circular_swap2 on all permutations of length <= N with all tuples of >= 2 distinct indices; translocate_slice/translocate_slice2 on all non-empty ranges and all insertion indices; multi_point_crossover with all non-empty cut sets of size < n; uniform_crossover with all masks; arithmetic_crossover with alphas in {0,1/4,1/2,1}^n; cycle_crossover on all pairs of permutations");
     rep.alpha("components on populations of 1..3 solutions: SwapMutation(2<=k<=n), ScrambleMutation, InversionMutation, InsertionMutation, TranslocationMutation, Normal/Uniform/BitFlip/PartialRandomSpread/PartialRandomBitstring with rate in {0,1/2,1}, NPoint/Uniform/Arithmetic/Cycle crossover with pc in {0,1/2,1} x insert one/both x even/odd populations, DEMutation on well-formed populations, DE selection -> mutation -> binomial/exponential crossover pipelines");
     rep.assume("documented parameter ranges are taken from the doc comments (swap: at least two, not greater than the solution length; n-point crossover: 1 <= n < dimension)");
@@ -989,14 +1028,14 @@ pub fn run(rep: &mut Report) {
     // ---- rate adapted through the state after initialisation ----
     let mut part = Part::new("components.adapted-rate");
     for which in 0..ADAPTED.len() as u8 {
-        for cfg_rate in [1.0, 0.5, 0.0] {
+        for (cfg_rate, reinit) in [(1.0, false), (0.5, false), (0.0, false), (0.0, true)] {
             let cfg = Cfg::prefix(&MENU4, 3, seed ^ (which as u64 * 31));
-            let body = || run_adapted_rate(which, cfg_rate);
+            let body = || run_adapted_rate(which, cfg_rate, reinit);
             tape::explore(&cfg, &body, &mut |prefix, out, _| {
                 part.transitions += 1;
                 part.traces += 1;
-                if let Some((s, d)) = check_adapted_rate(which, cfg_rate, out) {
-                    part.violate(s, d, json!({"adapted": which, "rate": cfg_rate, "tape": prefix, "seed": seed ^ (which as u64 * 31)}));
+                if let Some((s, d)) = check_adapted_rate(which, cfg_rate, reinit, out) {
+                    part.violate(s, d, json!({"adapted": which, "rate": cfg_rate, "reinit": reinit, "tape": prefix, "seed": seed ^ (which as u64 * 31)}));
                 }
             });
             part.states += 1;
@@ -1012,8 +1051,9 @@ pub fn replay(case: &Value) -> Result<Vec<(String, String)>, String> {
         let rate = case["rate"].as_f64().unwrap_or(1.0);
         let tape: Vec<u32> = case["tape"].as_array().ok_or("no tape")?.iter().map(|x| x.as_u64().unwrap() as u32).collect();
         let cfg = Cfg::prefix(&MENU4, 3, case["seed"].as_u64().unwrap_or(0));
-        let (out, _) = tape::run_once(&cfg, &tape, || run_adapted_rate(w as u8, rate));
-        return Ok(check_adapted_rate(w as u8, rate, &out).into_iter().collect());
+        let reinit = case["reinit"].as_bool().unwrap_or(false);
+        let (out, _) = tape::run_once(&cfg, &tape, || run_adapted_rate(w as u8, rate, reinit));
+        return Ok(check_adapted_rate(w as u8, rate, reinit, &out).into_iter().collect());
     }
     if let Some(h) = case["helper"].as_str() {
         let us = |v: &Value| -> Vec<usize> { v.as_array().map(|a| a.iter().map(|x| x.as_u64().unwrap() as usize).collect()).unwrap_or_default() };
